@@ -1,0 +1,52 @@
+//go:build verif
+
+// Contracts for package datamatrix/decoder, read by the govc verification-condition generator in /verif.
+// Comments only.
+
+package decoder
+
+// ---------------------------------------------------------------- Data Matrix codeword stream (C02)
+// 255-state randomising of Base 256 codewords (annex B.2) is undone exactly: for every byte and position
+//@ func unrandomize255State(randomizedBase256Codeword int, base256CodewordPosition int) (r int)
+//@   property C02 C08
+//@   mode bv
+//@   requires 0 <= randomizedBase256Codeword && randomizedBase256Codeword <= 255 && 0 <= base256CodewordPosition && base256CodewordPosition <= 100000
+//@   let R = (149 * base256CodewordPosition) % 255 + 1
+//@   ensures r == (randomizedBase256Codeword - R >= 0 ? randomizedBase256Codeword - R : randomizedBase256Codeword - R + 256) && 0 <= r && r <= 255
+//@   modifies nothing
+//@ spec func rand255(ch int, pos int) int = ch + (149 * pos) % 255 + 1 <= 255 ? ch + (149 * pos) % 255 + 1 : ch + (149 * pos) % 255 + 1 - 256
+//@ spec func unrand255(v int, pos int) int = v - ((149 * pos) % 255 + 1) >= 0 ? v - ((149 * pos) % 255 + 1) : v - ((149 * pos) % 255 + 1) + 256
+//@ lemma randomize255Inverse(ch int, pos int)
+//@   property C02 C08
+//@   requires 0 <= ch && ch <= 255 && 0 <= pos
+//@   ensures 0 <= rand255(ch, pos) && rand255(ch, pos) <= 255 && unrand255(rand255(ch, pos), pos) == ch
+// Base 256 length field (5.2.9.2): d1 < 250 is the length itself; otherwise length = 250*(d1-249) + d2 — inverse of the
+// encoder's split of a length n in 250..1555 into d1 = n/250 + 249, d2 = n % 250
+//@ lemma base256Length(n int)
+//@   property C02
+//@   requires 250 <= n && n <= 1555
+//@   ensures 250 <= n / 250 + 249 && n / 250 + 249 <= 255 && 250 * ((n / 250 + 249) - 249) + n % 250 == n
+
+// EDIFACT (5.2.8.2): when two or fewer codewords remain in the symbol they are ASCII codewords: the segment ends without consuming them
+//@ func decodeEdifactSegment(bits *common.BitSource, result []byte) (r []byte)
+//@   property C02 C06
+//@   requires bits != nil && common.wfBS(bits) && len(bits.bytes) <= 1000000 && len(result) <= 10000000
+//@   ensures old(common.availBS(bits)) <= 16 ==> r == result && common.availBS(bits) == old(common.availBS(bits))
+//@   ensures common.availBS(bits) <= old(common.availBS(bits)) && len(r) >= len(result)
+//@   loop 0: invariant common.wfBS(bits) && bits.bytes == old(bits.bytes) && common.availBS(bits) <= old(common.availBS(bits)) && len(result) >= old(len(result)) && (old(common.availBS(bits)) <= 16 ==> result == old(result) && common.availBS(bits) == old(common.availBS(bits)))
+//@   loop 1: invariant 0 <= i && i <= 4 && common.wfBS(bits) && bits.bytes == old(bits.bytes) && common.availBS(bits) <= old(common.availBS(bits)) && len(result) >= old(len(result)) && old(common.availBS(bits)) > 16
+
+// correctErrors hands the Reed-Solomon decoder every codeword of the block, widened to 0..255, in order, in storage of its own,
+// and afterwards copies back the data codewords only; on a decoding failure the block is left as it was
+//@ func (d *Decoder) correctErrors(codewordBytes []byte, numDataCodewords int) (e error)
+//@   property C02 C06
+//@   mode bv
+//@   requires d.rsDecoder != nil && 0 <= numDataCodewords && numDataCodewords <= len(codewordBytes)
+//@   assert call(Decode,0): len(codewordsInts) == len(codewordBytes) && fresh(codewordsInts) && (forall k int :: 0 <= k && k < len(codewordBytes) ==> codewordsInts[k] == int(codewordBytes[k]))
+//@   ensures e != nil ==> forall k int :: 0 <= k && k < len(codewordBytes) ==> codewordBytes[k] == old(codewordBytes[k])
+//@   ensures forall k int :: numDataCodewords <= k && k < len(codewordBytes) ==> codewordBytes[k] == old(codewordBytes[k])
+//@   internal e == nil ==> forall k int :: 0 <= k && k < numDataCodewords ==> codewordBytes[k] == byte(codewordsInts[k])
+//@   loop 0: invariant 0 <= i && i <= numCodewords && len(codewordsInts) == numCodewords && fresh(codewordsInts) && (forall k int :: 0 <= k && k < i ==> codewordsInts[k] == int(codewordBytes[k]))
+//@   loop 0: decreases numCodewords - i
+//@   loop 1: invariant 0 <= i && i <= numDataCodewords && len(codewordsInts) == numCodewords && (forall k int :: 0 <= k && k < i ==> codewordBytes[k] == byte(codewordsInts[k])) && (forall k int :: i <= k && k < len(codewordBytes) ==> codewordBytes[k] == old(codewordBytes[k]))
+//@   loop 1: decreases numDataCodewords - i
